@@ -81,6 +81,19 @@ def gen_cases(ctx, env, n):
             st, tt = (a, b) if rng.random() < 0.5 else (b, a)
             cls = "all-disconnected"
             shape = ("remainder-without-a-dimension", d, str(common)[:20], st is a)
+        elif r < 0.885:
+            # two units of the user's own that are declared in terms of one another - both statements are true: a force is a
+            # pressure times an area, a pressure is a force over an area - and connected to nothing else.  Between themselves
+            # they convert; towards newtons and pascals there is nothing to go by, and the answer is ConversionNotFound (in
+            # finite time)
+            frc, prs = "zqc07mutF", "zqc07mutP"
+            side = rng.choice([["u", frc], ["mul", ["u", prs], ["pow", ["u", "meter"], 2]], ["u", prs], ["div", ["u", frc], ["pow", ["u", "meter"], 2]]])
+            force_like = side in (["u", frc], ["mul", ["u", prs], ["pow", ["u", "meter"], 2]])
+            other = rng.choice([["u", "newton"], ["mul", ["u", "kilogram"], ["div", ["u", "meter"], ["pow", ["u", "second"], 2]]], ["u", "pound-force"]]) if force_like \
+                else rng.choice([["u", "pascal"], ["div", ["u", "newton"], ["pow", ["u", "meter"], 2]], ["u", "atmosphere" if "atmosphere" in pools.units else "pascal"]])
+            st, tt = (side, other) if rng.random() < 0.5 else (other, side)
+            cls = "all-disconnected"
+            shape = ("declared-in-terms-of-one-another", force_like, str(other)[:24], st is side)
         elif r < 0.9:
             # product-defined units of the user's own, one declared with a Decimal number and one with a float (the
             # registry then holds ratios of both kinds), meeting on one side of a conversion that a third, unconnected
@@ -151,7 +164,10 @@ def run(ctx):
     defs += [["define", "zqc07push", "zqc07push", ["dimname", "force"]], ["define", "zqc07shove", "zqc07shove", ["dimname", "force"]],
              ["define", "zqc07heave", "zqc07heave", ["dimname", "energy"]],
              ["declare", ["u", "zqc07push"], ["d", "2.5"], newton_t], ["declare", ["u", "zqc07shove"], ["f", (3.0).hex()], newton_t],
-             ["declare", ["u", "zqc07heave"], ["d", "1.5"], joule_t]]
+             ["declare", ["u", "zqc07heave"], ["d", "1.5"], joule_t],
+             ["define", "zqc07mutF", "zqc07mutF", ["dimname", "force"]], ["define", "zqc07mutP", "zqc07mutP", ["dimname", "pressure"]],
+             ["declare", ["u", "zqc07mutF"], ["i", 1], ["mul", ["u", "zqc07mutP"], ["pow", ["u", "meter"], 2]]],
+             ["declare", ["u", "zqc07mutP"], ["i", 1], ["div", ["u", "zqc07mutF"], ["pow", ["u", "meter"], 2]]]]
     # refused declarations (zero-sized or self equivalences raise and must equate nothing) are part of the
     # history: afterwards the same impossible conversions must still fail with ConversionNotFound only
     by_dim = {}
@@ -216,6 +232,14 @@ def run(ctx):
         for (op, kind, cls, shape, nontrivial), a, b in zip(chunk, rd, ro):
             ctx.count("evaluations")
             oa, ob = outcome(a), outcome(b)
+            if "NotRun" in (oa[1], ob[1]):
+                ctx.count("operations_not_run_after_one_that_did_not_terminate")
+                continue
+            if "DoesNotTerminate" in (oa[1], ob[1]):
+                ctx.violation("C07:conversion-does-not-terminate", f"{kind} used more than 20 s of CPU time (operations of these histories take milliseconds): "
+                              f"{model.show(op[2]) if kind != 'sorted' else op} against {model.show(op[3] if kind == 'convert' else op[4]) if kind not in ('sorted', 'lt_level') else ''}",
+                              {"op": op, "default": a, "-O": b})
+                continue
             ctx.count(f"outcomes/default/{oa[1] if oa[0] == 'raise' else 'value'}")
             ctx.count(f"outcomes/-O/{ob[1] if ob[0] == 'raise' else 'value'}")
             ctx.count(f"cases/{cls}/{kind}")
